@@ -445,3 +445,76 @@ Theorem model_is_code_naive : forall tzo W f, wall_in_range W = true ->
   glue_DateTime_naive (dt_of W f tzo) = hres None (hstep (mkhst (tzp tzo) W f) ODropTz).
 Proof. exact glue_naive. Qed.
 Print Assumptions model_is_code_naive.
+
+(* ---- a second construction step that passes ANY SUBSET of the seven fields (Model/WallFields.v; substep-* streams): whatever subset
+   set() / replace() are given -- also only second / microsecond: transitions are not minute-aligned -- all seven fields go through
+   DateTime.create -> Timezone.convert with the instance's fold ---- *)
+From PV Require Import Model.WallFields Proofs.C02SetFields.
+
+Theorem model_is_code_set_fields : forall tzo W f oy om od oh omi os ous W',
+  merge_fields W oy om od oh omi os ous = Some W' -> wall_in_range W' = true ->
+  glue_DateTime_set (dt_of W f tzo) oy om od oh omi os ous None
+  = hres tzo (hstep2 (mkhst (tzp tzo) W f) (HSetFields oy om od oh omi os ous)).
+Proof. exact glue_set_fields. Qed.
+Print Assumptions model_is_code_set_fields.
+
+Theorem model_is_code_set_fields_invalid : forall tzo W f oy om od oh omi os ous,
+  merge_fields W oy om od oh omi os ous = None ->
+  glue_DateTime_set (dt_of W f tzo) oy om od oh omi os ous None
+  = hres tzo (hstep2 (mkhst (tzp tzo) W f) (HSetFields oy om od oh omi os ous)).
+Proof. exact glue_set_fields_invalid. Qed.
+Print Assumptions model_is_code_set_fields_invalid.
+
+Theorem model_is_code_replace_fields : forall tzo W f oy om od oh omi os ous W',
+  merge_fields W oy om od oh omi os ous = Some W' -> wall_in_range W' = true ->
+  glue_DateTime_replace_keep (dt_of W f tzo) oy om od oh omi os ous None
+  = hres tzo (hstep2 (mkhst (tzp tzo) W f) (HSetFields oy om od oh omi os ous)).
+Proof. exact glue_replace_fields. Qed.
+Print Assumptions model_is_code_replace_fields.
+
+Theorem substep_is_construction : forall z fx W f oy om od oh omi os ous W',
+  merge_fields W oy om od oh omi os ous = Some W' ->
+  hstep2 (mkhst (Some (z, fx)) W f) (HSetFields oy om od oh omi os ous) = build (Some (z, fx)) W' f false.
+Proof. exact set_fields_is_construction. Qed.
+Print Assumptions substep_is_construction.
+
+Theorem substep_no_field_renormalises : forall st, wall_in_range (h_W st) = true ->
+  hstep2 st (HSetFields None None None None None None None) = build (h_tz st) (h_W st) (h_f st) false.
+Proof. exact set_fields_none_renormalises. Qed.
+Print Assumptions substep_no_field_renormalises.
+
+Theorem substep_all_fields_is_set_wall : forall st W', wall_in_range W' = true ->
+  let '(y, m, d, h, mi, s, us) := fields_of_wall W' in
+  hstep2 st (HSetFields (Some y) (Some m) (Some d) (Some h) (Some mi) (Some s) (Some us)) = hstep st (OSetWall W').
+Proof. exact set_fields_all_is_set_wall. Qed.
+Print Assumptions substep_all_fields_is_set_wall.
+
+Theorem substep_second_only_skipped : forall z W f s W', wf2_zone z = true ->
+  merge_fields W None None None None None (Some s) None = Some W' -> wall_skipped z (sec W') ->
+  let g := off_local z (sec W') true - off_local z (sec W') false in
+  0 < g /\
+  (wall_in_range (W' + MEG * g) = true -> f = true ->
+     hstep2 (mkhst (Some (z, false)) W f) (HSetFields None None None None None (Some s) None) = Ok (mkhst (Some (z, false)) (W' + MEG * g) false)) /\
+  (wall_in_range (W' - MEG * g) = true -> f = false ->
+     hstep2 (mkhst (Some (z, false)) W f) (HSetFields None None None None None (Some s) None) = Ok (mkhst (Some (z, false)) (W' - MEG * g) false)).
+Proof. exact set_second_only_skipped. Qed.
+Print Assumptions substep_second_only_skipped.
+
+Theorem substep_second_only_repeated : forall z W f s W', wf_zone z = true ->
+  merge_fields W None None None None None (Some s) None = Some W' -> wall_repeated z (sec W') ->
+  hstep2 (mkhst (Some (z, false)) W f) (HSetFields None None None None None (Some s) None) = Ok (mkhst (Some (z, false)) W' f) /\
+  inst z W' f = (if f then W' - MEG * off_local z (sec W') true else W' - MEG * off_local z (sec W') false).
+Proof. exact set_second_only_repeated. Qed.
+Print Assumptions substep_second_only_repeated.
+
+Theorem substep_second_only_monrovia_1972 :
+  let W := wall_of 1972 1 7 0 44 45 0 in
+  wf2_zone monrovia = true /\
+  merge_fields W None None None None None (Some 10) None = Some (wall_of 1972 1 7 0 44 10 0) /\
+  ~ wall_skipped monrovia (sec W) /\ wall_skipped monrovia (sec (wall_of 1972 1 7 0 44 10 0)) /\
+  hstep2 (mkhst (Some (monrovia, false)) W true) (HSetFields None None None None None (Some 10) None)
+    = Ok (mkhst (Some (monrovia, false)) (wall_of 1972 1 7 1 28 40 0) false) /\
+  hstep2 (mkhst (Some (monrovia, false)) W false) (HSetFields None None None None None (Some 10) None)
+    = Ok (mkhst (Some (monrovia, false)) (wall_of 1972 1 6 23 59 40 0) false).
+Proof. exact set_second_only_monrovia. Qed.
+Print Assumptions substep_second_only_monrovia_1972.
